@@ -148,14 +148,18 @@ contract(
         _OB_COMPLETE.format(d='result', extra=''),
         # a descriptor is a key only if some node is listed under it
         "all(len(result[b]) > 0 for b in keys(result))",
+        # keys are descriptors (from the graph data invariant on 'bonding' lists)
+        "all(is_descriptor(b) for b in keys(result))",
     ],
-    modifies=[],
+    modifies=[], opaque=['is_descriptor'], heap_invariants=['descriptors'],
     loops={
         0: Loop(over='open_bonds.items()', invariant=[
+            "all(is_descriptor(b) for b in keys(open_bonds_by_descriptor))",
             _OB_SOUND.format(d='open_bonds_by_descriptor'),
             _OB_COMPLETE.format(d='open_bonds_by_descriptor', extra=' and key_index(open_bonds, n) < _i0'),
             "all(len(open_bonds_by_descriptor[b]) > 0 for b in keys(open_bonds_by_descriptor))"]),
         1: Loop(over='bonding_types', invariant=[
+            "all(is_descriptor(b) for b in keys(open_bonds_by_descriptor))",
             "all(len(open_bonds_by_descriptor[b]) > 0 for b in keys(open_bonds_by_descriptor))",
             _OB_SOUND.format(d='open_bonds_by_descriptor'),
             _OB_COMPLETE.format(d='open_bonds_by_descriptor', extra=' and key_index(open_bonds, n) < _i0'),
